@@ -500,9 +500,14 @@ class Outcome:
         self.retention_violations: list = []
         self.retention_stats: dict = {}
         self.rest_points = 0
+        self.real_clock = False
 
     def digest(self) -> str:
-        return hashlib.sha1(repr(self.events).encode()).hexdigest()[:16]
+        ev = self.events
+        if self.real_clock:
+            # real timestamps change the length of the metadata text: sizes are not part of the identity of such a run
+            ev = [(e[:4] + (0,) + e[5:]) if e[0] == 'f' else e for e in ev]
+        return hashlib.sha1(repr(ev).encode()).hexdigest()[:16]
 
     def schedule_digest(self) -> str:
         keep = [e for e in self.events if e[0] in ('begin', 'end', 'complete', 'pstart', 'kill', 'timeout',
@@ -513,13 +518,14 @@ class Outcome:
         return tuple(e[1] for e in self.events if e[0] == 'complete')
 
 
-def execute(sc: dict, ch: Choices, storage_dir: Optional[str]) -> Outcome:
+def execute(sc: dict, ch: Choices, storage_dir: Optional[str], storage_obj=None) -> Outcome:
     """Runs warm-up (if the spec asks for a cache pre-state) and then the main
     run_tasks call on the substrate named by sc['backend']."""
     out = Outcome()
+    out.real_clock = bool(sc.get('real_clock'))
     backend = sc['backend']
     ref = Ref(sc)
-    if storage_dir is not None and sc.get('cached'):
+    if storage_dir is not None and sc.get('cached') and not sc.get('skip_warm'):
         out.pre_values = warm_cache(sc, storage_dir)
     built = Built(sc)
     out.instance_children = built.children
@@ -547,8 +553,11 @@ def execute(sc: dict, ch: Choices, storage_dir: Optional[str]) -> Outcome:
 
     storage_kind = sc.get('storage', 'simlocal')
     sim_storage = None
-    if storage_dir is None or storage_kind == 'none':
-        storage_arg: Any = None
+    if storage_obj is not None:
+        sim_storage = SimStorage(storage_obj, ctl, split_threshold=sc.get('split_threshold', 0))
+        storage_arg: Any = sim_storage
+    elif storage_dir is None or storage_kind == 'none':
+        storage_arg = None
     elif storage_kind == 'local':
         storage_arg = storage_dir
     else:
